@@ -266,8 +266,24 @@ pub fn market_submit<const N: usize, const L: usize>(m: usize, cfg: GenCfg, whic
     core::mem::forget(t1);
 }
 
+pub static mut MCANCELLED: [MarketOrderId; 8] = [(0, 0); 8];
+pub static mut NMCANCELLED: usize = 0;
+pub fn mcancelled() -> ([MarketOrderId; 8], usize) {
+    unsafe { (MCANCELLED, NMCANCELLED) }
+}
+
 // (generic parameters named as in the crate: Kani compares stub signatures nominally)
 impl<const ASSETS: usize, const LEVELS: usize> MarketEnv<ASSETS, LEVELS> {
+    /// Stand-in for `MarketEnv::cancel_order` in whole-`update` agent harnesses: records the id.
+    pub fn verif_log_cancel_order(&mut self, order_id: MarketOrderId) {
+        unsafe {
+            let n = NMCANCELLED;
+            if n < 8 {
+                MCANCELLED[n] = order_id;
+            }
+            NMCANCELLED = n + 1;
+        }
+    }
     /// Stand-in for `MarketEnv::place_order` in whole-`update` agent harnesses (see
     /// `Env::verif_log_place_order`): same tick-grid test, fixed-size log, ids (asset, n).
     pub fn verif_log_place_order(&mut self, asset: AssetIdx, side: Side, vol: Vol, trader_id: TraderId, price: Option<Price>) -> Result<MarketOrderId, OrderError> {
